@@ -93,7 +93,7 @@ def model_graph_real(c, depth, tier):
 
 def scripts_from_graph(g, seed, maxlen=40):
     """Edge-covering walks -> harness script text + per-step expected internals (from the model states)."""
-    walks = g.covering_walks(maxlen=maxlen)
+    walks = g.split_after_self_loops(g.covering_walks(maxlen=maxlen))
     lines, expect = [], []   # expect[i] = dict for the i-th emitted event
     rot = seed
     for wi, (init, walk) in enumerate(walks):
@@ -136,10 +136,11 @@ def scripts_from_graph(g, seed, maxlen=40):
         # position (makes persistent hidden-state corruption - e.g. a damaged nonce/counter word - observable); not part of
         # the graph, so no model state is expected for these two records
         probe = [0, 64 * 3 + 5, 2**38 - 130, 64][rot % 4]
+        lines.append("pos u128")                                   # first without any seek: a seek may repair damaged bookkeeping
+        lines.append("apply %d" % [1, 65, 3, 64][rot % 4])
         lines.append("seek u64 0 %d" % probe)
         lines.append("apply %d" % [70, 130, 1, 64][rot % 4])
-        expect.append(None)
-        expect.append(None)
+        expect += [None, None, None, None]
     return "\n".join(lines) + "\n", expect, walks
 
 
